@@ -10,102 +10,102 @@ CLAIMED = {
    text="Lean 4 theorem: the acceptance function of sign_credential (the per-position loop with its early returns, ClaimSchema::is_valid's accumulation, the four validators with defaults and applicability, exactly-one-revocation threading, not-revoked test) accepts a claim vector iff it satisfies the declarative Conformant predicate of the property — for every schema and vector. The real sign_credential verdict is compared with the model and with an independently written conformance predicate on random schemas × perturbed vectors; every returned credential's signature and handle are verified.",
    note="Trusted: Lean kernel + standard axioms; the regex crate's verdict and UTF-8 validity are inputs of the model (computed by the harness with the real crates); validity of returned signature / handle is C17 / C13 theory plus the oracle here.",
    technique="Lean 4 proof (decision logic ⇔ declarative predicate) + verdict correspondence",
-   design="§7 C15"),
+   design="§A7 C15 (as built), Part II §7 C15 (rationale)"),
  "C16": dict(
    text="Lean 4 theorems over the truncating msm for both suites: request completeness when the secrets are listed in generator (index) order, special soundness of the issuer-side check (the commitment opens over the generators the issuer does not know and the blinding generator only), the over-long-vector theorem behind the repaired response-count check, blind signing + unblinding yields a signature on the union vector (BBS, PS), perfect hiding of the PS request and determinism of the BBS commitment (known finding). The real three-step flow runs for every non-empty blindable subset of schemas whose label order differs from index order, and deviating holders attack the policy (non-blindable, overlapping, duplicated labels), the proof (every leaf, every vector length, over-long forgery with recomputed challenge) and the commitment.",
    note="Trusted: Lean kernel + standard axioms; forking lemma; pairing reading of signature validity. The blindable / disjoint / cover policy is decision logic exercised on the real issuer, not modelled in Lean. Known finding: BBS request commitment is unblinded.",
    technique="Lean 4 proof (Σ-protocol algebra of the blind contexts, flow identities) + exhaustive-subset flow runs and deviating-holder catalogue",
-   design="§7 C16"),
+   design="§A7 C16 (as built), Part II §7 C16 (rationale)"),
  "C17": dict(
    text="Lean 4 theorems for both suites: sign/verify completeness; key, message and component binding of BBS signatures and exponent binding of PS signatures; proof-of-knowledge completeness for every partition; special soundness of the recomputed commitments for response vectors of the checked length, with the extracted relation shown to be a signature on the full vector; the over-long-vector theorem explaining the repaired length check. The model's verify / recomputed commitment / index→response lookup are compared with the real code on hand-made keys, signatures and proofs whose discrete logs are known (honest and 15 adversarial variants), and the real signer/prover is judged by the property's oracle on every partition.",
    note="Trusted: Lean kernel + standard axioms; pairing equations are read through the secret key (bilinearity and non-degeneracy of BLS12-381); computational unforgeability (q-SDH, PS assumption, forking lemma) is not formalised; hash-derived generators are treated as independent.",
    technique="Lean 4 proof (Σ-protocol algebra over truncating msm) + differential correspondence in discrete-log space",
-   design="§7 C17"),
+   design="§A7 C17 (as built), Part II §7 C17 (rationale)"),
  "C18": dict(
    text="Lean 4 theorems over the model of the claim codecs (zero-centring is translation by 2^63 on all of i64, hence strictly monotone, injective and invertible; ≤31-byte packing round-trips and is injective; byte-codec round trips; hash-encoded claims are collision-free up to an exhibited hash collision) for all inputs, plus value-by-value differential correspondence of every model function with the real code and oracle checks on the real code.",
    note="Trusted: Lean kernel + propext/Quot.sound/Classical.choice; SHAKE-256 is a parameter (collision resistance assumed); the model is hand-written and tied to /repo by the M1 stream (≈19k comparisons per quick run); text-codec round trip is checked by correspondence + oracle, not yet by a theorem.",
    technique="Lean 4 proof over executable model + differential correspondence with the Rust code",
-   design="§7 C18"),
+   design="§A7 C18 (as built), Part II §7 C18 (rationale)"),
  "C06": dict(
    text="Lean 4 theorems: for the membership Σ-protocol as coded (commit / gen_proof / finalize), the verifier's recomputed commitments equal the prover's iff c•((y+α)•C − V) = 0, for every handle, coin vector and challenge (so valid handles are always accepted and invalid ones always rejected for c ≠ 0); special soundness (two answers to one commitment yield a valid handle for the identifier encoded by s_y, the response tied to the signature proof); stale, publicly updated (deleted element) and borrowed handles fail the relation after a revocation that moves the value; composed with the registry-history theorems of C13 and the public-update history theorem of C14: in every reachable registry state every active identifier is accepted with the issuer-refreshed handle and with the handle updated from every published batch, and a revoked identifier is never refreshed. Tied to the real code by random histories (issue, blind issue, single / batch revoke, refresh, re-issuance attempts, persist) over many holders with real Presentation::create / verify for every handle class at every epoch (verdict = witness relation = model verdict), by extracting the real prover's coins from two challenges and comparing model prover / verifier output point by point (incl. the target-group element), and by proof-grafting / per-leaf deviations.",
    note="Trusted: Lean kernel + propext/Quot.sound/Classical.choice; the pairing is read through the secret key (e(A,P~)·e(B,Q~) ↦ A + α•B: bilinearity + non-degeneracy); hash-derived generators X, Y, Z are treated as non-zero / independent; that no handle for a revoked identifier can be computed without the secret key is the q-SDH assumption, not a theorem — the theorems reduce acceptance to possession of the unique handle (y+α)⁻¹•V and show that every publicly derivable handle class differs from it; Fiat–Shamir (C04) turns commitment equality into acceptance.",
    technique="Lean 4 proof (Σ-protocol algebra, induction over registry histories via C13/C14) + history-driven differential correspondence with real presentations",
-   design="§7 C06"),
+   design="§A7 C06 (as built), Part II §7 C06 (rationale)"),
  "C19": dict(
    text="Lean 4 theorems for the crate's own hand-written byte codecs after repair (cursor reads over fixed-width point / scalar encoders: PS public key and BBS proof-of-knowledge layouts round-trip for every value; the pinned BBS length test is proved unsatisfiable on any encoding), tied to the real from_bytes by differential correspondence on valid, truncated, extended and count-mutated encodings; for the serde-derived formats every object kind × JSON / CBOR / BARE is round-tripped on the real code (re-encoding equality and unchanged verification verdicts).",
    note="Trusted: Lean kernel + propext/Quot.sound/Classical.choice; blstrs point / scalar (de)compression and the serde back ends (serde_json, serde_cbor, serde_bare) are third-party and are parameters / exercised, not modelled; known finding F20 (BARE cannot decode structs whose serialiser skipped an optional field) is recorded, not repaired.",
    technique="Lean 4 proof over executable codec model + differential correspondence and round-trip oracle on the Rust code",
-   design="§7 C19"),
+   design="§A7 C19 (as built), Part II §7 C19 (rationale)"),
  "C01": dict(
    text="Lean 4 theorems in two layers. Decision logic of Presentation::verify for every presentation object and schema: acceptance implies the challenge comparison succeeded, every signature statement is matched with a proof of the signature variant that passed the disclosed-claims check and its proof-of-knowledge verifier, every predicate statement with a proof of its own variant; other variants / missing proofs are rejected. Algebra (C17): special soundness of the BBS / PS proofs of knowledge for response vectors of the checked length with the extracted witness shown to be a signature. On the real code an adversary without any signature of the statement's issuer runs the attack catalogue (foreign credential, steered transplant, free challenges, omitted proof, all 7 other variants under the signature id, observed proofs, every response-vector length, over-long forgeries with harvested pair / no signature, identity elements).",
    note="Trusted: Lean kernel + standard axioms; forking lemma, q-SDH / PS assumption, random-oracle idealisation of merlin; pairing read through the secret key. The decision-logic model is hand-written; its disclosed-claims check is compared with the real verdict (C02 stream) and its dispatch clauses are exercised by the attack catalogue; cryptographic sub-checks are parameters of that model.",
    technique="Lean 4 proof (decision logic + special soundness) + adversarial attack catalogue on the real verifier",
-   design="§7 C01"),
+   design="§A7 C01 (as built), Part II §7 C01 (rationale)"),
  "C02": dict(
    text="Lean 4 theorems characterising the repaired disclosed-claims check exactly (label set = requested ∩ schema labels; every reported claim has the schema's type; the proof's index→scalar map is exactly the encodings of the reported claims at the schema's indices), holding for every accepted presentation by the C01 decision-logic theorem. The model's check is compared with the real verdict on deviating holders that own a valid credential: the real prover is steered with the verifier's transcript for a statement that hides / adds claims while the reported map says otherwise.",
    note="Trusted: as C01. Unique keys of the decoded maps are hypotheses (IndexMap / BTreeSet invariants). Requested labels unknown to the issuer schema are ignored by the repaired check (the repository's own tests request such labels); recorded in DESIGN.md.",
    technique="Lean 4 proof of the decision logic + steered-prover deviation catalogue with model comparison",
-   design="§7 C02"),
+   design="§A7 C02 (as built), Part II §7 C02 (rationale)"),
  "C03": dict(
    text="Lean 4 completeness theorems for every sub-protocol as coded (BBS and PS proofs of knowledge for every revealed/hidden partition over the zip-truncating msm, commitment, ElGamal, per-byte proofs, byte-sum check, equality): the verifier's recomputation from honest responses equals what the honest prover hashed, for all witnesses, randomness and challenges. The composition is exercised on the real code: random well-formed scenarios over all statement kinds, 1..3 credentials, both suites, shuffled statement order, chained equalities, before and after BARE / JSON / CBOR round trips.",
    note="Trusted: Lean kernel + standard axioms; bulletproofs / AES-GCM completeness; 'prover and verifier append identical transcript items in identical order' is checked by running the real create/verify on generated scenarios (oracle), not proved — there is no executable Lean model of Presentation::create yet.",
    technique="Lean 4 proof of per-protocol completeness + honest-run oracle on generated statement graphs",
-   design="§7 C03"),
+   design="§A7 C03 (as built), Part II §7 C03 (rationale)"),
  "C04": dict(
    text="Lean 4 theorem: the list of transcript items absorbed before any proof material (curve parameters, nonce, schema id, every field of every statement of all 8 kinds, issuer public data, credential-schema labels) is an injective function of the context, via prefix-injectivity of every encoder incl. LEB128 — so acceptance under two different contexts needs a hash collision on two different item lists. The model's item list is compared byte for byte with what the real verifier appends (logging merlin) for generated and mutated schemas; every single change of every schema leaf / nonce byte is tried against the real verifier.",
    note="Trusted: Lean kernel + standard axioms; collision resistance and item framing of merlin/STROBE. Not hashed by design (and not in the property's parameter list): per-claim schema entries (type, validators, print_friendly), absent vs empty schema label/description — the model's types erase exactly those.",
    technique="Lean 4 injectivity proof of the transcript encoder + byte-exact transcript correspondence + parameter-mutation sweep",
-   design="§7 C04"),
+   design="§A7 C04 (as built), Part II §7 C04 (rationale)"),
  "C05": dict(
    text="Lean 4 theorems: on a strictly ascending revealed list (what every caller passes after the repair) the index→response lookup returns exactly the hidden indices, each with the response at the slot where the proof of knowledge pairs its generator (proved by an invariant over the cursor loop; the unsorted-list shift of the pinned tree is exhibited); special soundness of the commitment and ElGamal verifiers extracts the predicate's witness with the same difference quotient of the shared response that the signature extractor assigns to that message, accumulator statements are linked through s_y equality. Deviating holders with valid credentials attack every statement kind on the real verifier: sub-protocol on another claim / other credential under the verifier's transcript (steered prover), every ordering of the proof's index list, transplanted predicate proofs.",
    note="Trusted: Lean kernel + standard axioms; soundness of the VB20 membership proof itself (Gt equation) and of bulletproofs; forking lemma. The composition 'lookup slot = generator slot' uses hiddenGens taken in index order (model of both suites' verify).",
    technique="Lean 4 proof (loop invariant of the lookup + shared-response extraction) + steered-prover deviation catalogue",
-   design="§7 C05"),
+   design="§A7 C05 (as built), Part II §7 C05 (rationale)"),
  "C07": dict(
    text="Lean 4 theorems, perfect (no assumption) and for every challenge: every linear Σ-protocol of the code is witness-indistinguishable under an explicit bijection of the nonces; the repaired commitment statement is perfectly hiding and its whole view (C, message response, blinder response) for one candidate equals the view for any other under a translation of the randomness; the pinned nonce-reuse distinguishers (commitment, ElGamal, per-byte) are proved as algebraic identities that separate candidates. The distinguisher catalogue (nonce-reuse solver over all responses × points × public generators, byte variant, point ratios, deterministic images, cross-presentation quotients) runs on the public view of honest presentations of every statement kind.",
    note="Trusted: Lean kernel + standard axioms; one-dimensionality (prime order) of G1; random-oracle simulation; DDH/DLIN hiding of the ciphertext components that are decryptable by design (ElGamal pairs, byte ciphertexts, accumulator-witness encryption), zero-knowledge of bulletproofs, AES-GCM; uniformity of OsRng. The honest prover's draw schedule is not replayed from an RNG tape (no source hook): independence of blinders is checked through the catalogue, which reproduces all three pinned leaks when the repairs are reverted.",
    technique="Lean 4 proof (perfect witness indistinguishability / hiding bijections) + public-data distinguisher catalogue",
-   design="§7 C07"),
+   design="§A7 C07 (as built), Part II §7 C07 (rationale)"),
  "C08": dict(
    text="Lean 4 theorems over the integer arithmetic of range statements for all of i64 and any group order above 2^65: the value opened by the verifier's lower (upper) adjusted commitment has a representative below 2^64 iff lower ≤ v (v ≤ upper), hence the two bulletproof claims are jointly satisfiable exactly for in-range values; the prover's pre-check is the same condition and, when it passes, its u64 arithmetic does not wrap and yields exactly the values the verifier's commitments open to. Real create/verify verdicts over the boundary lattice and random triples are compared with the model; out-of-range values are attacked with a steered prover.",
    note="Trusted: Lean kernel + standard axioms; soundness / completeness of the third-party 64-bit bulletproofs (the statement 'committed value < 2^64'); binding of the Pedersen commitment to the signed claim is C05's.",
    technique="Lean 4 proof (integer / modular arithmetic over the whole i64 domain) + verdict correspondence on a boundary lattice",
-   design="§7 C08"),
+   design="§A7 C08 (as built), Part II §7 C08 (rationale)"),
  "C09": dict(
    text="Lean 4 theorems: the verifier's all-equal test on the looked-up responses for two challenges forces equal difference quotients, i.e. equal extracted (signed, by C17) values; differing values make the test fail for at least one challenge; one shared nonce with equal values passes. Real runs over 2..3 credentials from different issuers, hashed / number / scalar positions, equal and unequal values incl. scalars differing only above bit 64, with deviating holders (independent nonces under the verifier's challenge, responses copied between proofs, equality proof removed / stored elsewhere).",
    note="Trusted: as C05/C17. Completeness of nonce sharing across overlapping statements is tied by the chained-equality scenarios of C03 (repaired finding F04).",
    technique="Lean 4 proof (equal responses ⇒ equal extracted values) + honest/deviating runs on the real verifier",
-   design="§7 C09"),
+   design="§A7 C09 (as built), Part II §7 C09 (rationale)"),
  "C10": dict(
    text="Lean 4 theorems from the opening extracted by C05.elgamal_sound: group decryption is m•M; pseudonyms are a function of (signed scalar, generator) and collide across generators only for the zero scalar; the byte-sum check forces the bytes to represent the signed scalar modulo the group order unless generator and key are discrete-log related; reduction modulo r recovers it (incl. the representation m + r the pinned decoder rejected); a claim returned by decrypt_and_verify encodes to the signed scalar once the proof's generator is the statement's (repair), with the pinned generator-swap exhibited. Real runs on every claim type with honest holders, a steered holder omitting the requested part and a hand-written holder (own randomness, real knox API) decomposing into non-canonical / wrong bytes.",
    note="Trusted: Lean kernel + standard axioms; bulletproofs (each byte ciphertext opens to a value < 256), AES-GCM, forking lemma. Known finding: decrypt_scalar only supports the G1 generator.",
    technique="Lean 4 proof (decryption algebra from the extracted opening) + honest / steered / hand-written-holder runs",
-   design="§7 C10"),
+   design="§A7 C10 (as built), Part II §7 C10 (rationale)"),
  "C11": dict(
    text="Lean 4 theorems: a changed response moves the recomputed Schnorr commitment whenever its base point is not the identity, a changed statement point moves it when the challenge is non-zero (generic over the truncating msm), instantiated for the commitment and ElGamal verifiers and turned into a rejection theorem for the BBS t-check; removal / replacement of required proofs is decided by the dispatch theorems of C01. Every leaf of honest presentations (JSON form: random / zero / identity / negation / +1 / sibling; vectors resized; proofs removed / swapped) and sampled single-byte / single-bit changes of the BARE form are run against the real decoder + verifier.",
    note="Trusted: Lean kernel + standard axioms; a fresh transcript hitting the presented challenge is negligible (random oracle); canonical third-party decoders. Known finding: enumeration total_values above 16 bits is not covered by any hashed value.",
    technique="Lean 4 proof (tampered leaf moves a hashed recomputation) + exhaustive single-site mutation sweep",
-   design="§7 C11"),
+   design="§A7 C11 (as built), Part II §7 C11 (rationale)"),
  "C12": dict(
    text="Lean 4 theorems: the randomised signature elements of BBS (a_bar = r•A) and PS ((r•σ₁, r•(σ₂+t•σ₁))) and the blinded accumulator witness are images of each other for any two valid signatures / witnesses under an explicit bijection of the holder's randomness (prime-order group), so with C07's witness indistinguishability the proof material of presentations from one credential is distributed as that from different credentials with the same disclosed claims. Linking tests (leaf equality, small / repeated cross-presentation difference quotients, pairing cross-ratios over all G1 × G2 leaves) are evaluated on same-credential and different-credential pairs of real presentations.",
    note="Trusted: as C07. Statements that deliberately derive pseudonyms (verifiable encryption) are excluded by the property.",
    technique="Lean 4 proof (randomisation bijections) + linking-test catalogue on pairs of real presentations",
-   design="§7 C12"),
+   design="§A7 C12 (as built), Part II §7 C12 (rationale)"),
  "C13": dict(
    text="Lean 4 theorems: the registry state machine (ordered sets + accumulator value, as coded after the atomicity repairs) refines an abstract status map never/active/revoked for every operation and, by induction, every history; an erroring operation returns the identical state; revoked is absorbing (never re-issued, never refreshed); the published value is V0 divided by (h(y)+α) exactly once per revoked identifier in every reachable state; every handle handed out verifies. Tied to the real Issuer (both suites) by an exhaustive prefix tree over a 17-operation alphabet plus random long histories, comparing return class, ordered sets, value and the verdict of every handle ever issued after every operation.",
    note="Trusted: Lean kernel + standard axioms; pairing check read as (y+α)•C = V; serde persist/restore is the identity on the modelled state (checked on the real code by JSON round trip at every position, not proved); claim validation and signing are abstracted to 'succeeds / fails' in this model (C15/C16 cover them).",
    technique="Lean 4 refinement proof (state machine ⊑ abstract status map, invariant by induction over histories) + exhaustive/random history correspondence",
-   design="§7 C13"),
+   design="§A7 C13 (as built), Part II §7 C13 (rationale)"),
  "C14": dict(
    text="Lean 4 theorems over a literal model of the VB20 polynomial code: loop invariants of create_coefficients (ω(y)(y+α) = ∏A(α)·d_D(y)/∏D(α) − d_A(y)), batch update preserves the witness relation and equals the from-scratch witness, for every history of batches of any sizes by induction, deleted elements are never updated, single-step formulas for one element, non-membership analogue; all for every field, key and element. Tied to the real vb20 API by comparing every coefficient vector, accumulator and witness (batch, multi-batch in every contiguous grouping, single-step, non-membership) in discrete-log space with the real points.",
    note="Trusted: Lean kernel + standard axioms; reading of the pairing check as (y+α)•C = V (bilinearity + non-degeneracy of BLS12-381); generic-position hypotheses y+α≠0, d+α≠0 are explicit. The multi-batch formula (evaluate_deltas) is tied by correspondence and oracle only; its theorem is the stepwise history theorem.",
    technique="Lean 4 proof (loop invariants, induction over histories) + differential correspondence in discrete-log space",
-   design="§7 C14"),
+   design="§A7 C14 (as built), Part II §7 C14 (rationale)"),
  "C20": dict(
    text="Lean 4 totality theorems (no model entry point reaches the explicit `panic` outcome, for every input) over the Outcome-typed model of the claim parsers/decoders, tied to the real code by comparing outcome classes ok|err|panic under catch_unwind on enumerated and random untrusted inputs.",
    note="Trusted: as C18. Covered entry points so far: ClaimData::from_text/from_bytes/to_text, ScalarClaim::encode_*/decode_*; other entry points are exercised by the harness catalogue only. Allocation failure and stack depth are outside the model.",
    technique="Lean 4 totality proof over Outcome-typed model + outcome-class correspondence",
-   design="§7 C20"),
+   design="§A7 C20 (as built), Part II §7 C20 (rationale)"),
 }
 
 def main():
